@@ -10,8 +10,12 @@ def run(c):
               "into missing namespaces) / delete / request of another type for an existing row / builtin (negative id) entities / "
               "duplicate creates, interleaved with journal reads and full paging walks, GetEntityVersioned, GetHistoryShort, state dumps; "
               "1 case in 25 carries 200-600 KB payloads to reach the journal byte limit; every 8th case races 8 goroutines with identical "
-              "requests (create same name / edit same version / edit stale version). Non-trivial = a history with a successful edit AND a "
-              "rename or name reuse AND a rejected stale version, or a race with exactly one winner; distinct by op-sequence hash")
+              "requests (create same name / edit same version / edit stale version); every 4th case drives the journal long-poll path of the REAL "
+              "rpc Handler over a loopback rpc server (2-4 clients sending metadata.getJournalnew, mostly continuing from the CurrentVersion they were "
+              "given; saves applied with db.SaveEntity whose broadcastJournal is delayed to an explicit `broadcast` op, and saves through "
+              "RawEditEntity; replies per client are diffed against the model's waiting list + trim rule). Non-trivial = a history with a successful edit AND a "
+              "rename or name reuse AND a rejected stale version, or a race with exactly one winner, or a long-poll case in which a broadcast ran while clients were parked at different From values "
+              "with the highest From equal to the version of a pending event; distinct by op-sequence hash")
     c.assumptions += [
         "one model step = one eng.Do callback: the engine runs callbacks one at a time on the single RW connection inside a savepoint that is "
         "rolled back on error (internal/sqlite/engine.go; that serialisation is C17's subject and is only exercised here by the race cases)",
@@ -64,7 +68,8 @@ def replay(c):
         feed = "\n".join(l for cs in cases for l in [cs.header] + cs.ops) + "\n"
         print("---- model"); print(vf.sh([drv], stdin=feed)[1])
         return 1 if "\n! " in "\n" + out else 0
-    return vf.generic_replay(c, sys.modules[__name__])
+    import types
+    return vf.generic_replay(c, types.SimpleNamespace(HARNESS=HARNESS, DRIVER=DRIVER, REPLAY_ARGS=REPLAY_ARGS))
 
 
 META = {
@@ -76,7 +81,9 @@ META = {
              "later request naming v can succeed (at most one winner in any schedule) and k otherwise-valid racing edits have exactly one winner; "
              "(namespace_id,type,name) stays unique; a request of type namespace cannot change the name (partial: type-mismatched requests excluded); a namespaced metric/group gets the id of an "
              "existing namespace row and that reference never dangles; the journal is strictly ascending by version, lists every entity at most "
-             "once at its current version, is a prefix of the full list and paging from the last delivered version continues exactly where it stopped."),
+             "once at its current version, is a prefix of the full list and paging from the last delivered version continues exactly where it stopped. Long-poll (rpc_handler.go): every reply of broadcastJournal is non-empty, strictly ascending, "
+             "only versions newer than that client's From, contains every current row between its From and the returned CurrentVersion; a "
+             "request is parked only when nothing newer exists; consecutive replies of a client that continues from CurrentVersion never repeat a version."),
     "note": ("Trusted: Lean kernel, SQLite, the engine's serialisation of Do callbacks, model<->code correspondence on generated histories "
              "(quick 280, thorough 9600 histories + corpus). GENUINE DEFECT on the pinned tree (oracle signature namespace-renamed, corpus/C15/"
              "builtin-namespace-rename.ops): a namespace request with the create flag for an EXISTING builtin (negative id) namespace is turned into an "
